@@ -272,7 +272,8 @@ fn gen_cmd_name(rng: &mut Rng, taken: &mut Vec<String>, base_prefix: Option<&str
         if let Some(p) = base_prefix {
             s.push_str(p);
         }
-        let segs = rng.range(1, 3);
+        // now and then a name far longer than its siblings (column widths, padding and length arithmetic in help output)
+        let segs = if rng.chance(4) { rng.range(9, 24) } else { rng.range(1, 3) };
         for k in 0..segs {
             if k > 0 && rng.chance(40) {
                 s.push('-');
